@@ -704,6 +704,7 @@ class LazyStackedTensorDict(TensorDictBase):
                         out.append(idx)
                         split_dim = self.stack_dim - num_single
                         mask_loc = i
+                        mask_dim = cursor
                     else:
                         is_nd_tensor = True
                         if not encountered_tensor:
@@ -740,9 +741,10 @@ class LazyStackedTensorDict(TensorDictBase):
                             # split mask along dim
                             # relative_stack_dim = self.stack_dim - cursor - cursor_incr
                             individual_masks = idx = idx.unbind(0)
-                            selected_td_idx = range(self.shape[i])
+                            selected_td_idx = range(self.shape[cursor])
                             split_dim = cursor - num_single
                             mask_loc = i
+                            mask_dim = cursor
                     elif cursor < self.stack_dim:
                         # we know idx is not a single integer, so it must have
                         # a dimension. We play with num_single, reducing it
@@ -773,7 +775,8 @@ class LazyStackedTensorDict(TensorDictBase):
                 "has_bool": has_bool,
                 "individual_masks": individual_masks,
                 "split_dim": split_dim,
-                "mask_loc": mask_loc,
+                "mask_loc": mask_loc,  # position of the mask in the index (counts None)
+                "mask_dim": mask_dim,  # first dim of self the mask indexes
                 "is_nd_tensor": is_nd_tensor,
                 "num_none": num_none,
                 "num_squash": num_squash,
@@ -916,7 +919,7 @@ class LazyStackedTensorDict(TensorDictBase):
                 for (i, _idx), _value in _zip_strict(
                     converted_idx.items(), value_unbind
                 ):
-                    self_idx = (slice(None),) * split_index["mask_loc"] + (i,)
+                    self_idx = (slice(None),) * split_index["mask_dim"] + (i,)
                     self[self_idx]._set_at_str(
                         key,
                         _value,
@@ -2296,7 +2299,7 @@ class LazyStackedTensorDict(TensorDictBase):
                     for (i, _idx), _value in _zip_strict(
                         converted_idx.items(), value_unbind
                     ):
-                        self_idx = (slice(None),) * split_index["mask_loc"] + (i,)
+                        self_idx = (slice(None),) * split_index["mask_dim"] + (i,)
                         self[self_idx][_idx] = _value
         else:
             for key in self.keys():
@@ -2355,7 +2358,7 @@ class LazyStackedTensorDict(TensorDictBase):
                 )
             else:
                 for i, _idx in converted_idx.items():
-                    self_idx = (slice(None),) * split_index["mask_loc"] + (i,)
+                    self_idx = (slice(None),) * split_index["mask_dim"] + (i,)
                     result.append(self[self_idx][_idx])
                 return torch.cat(result, cat_dim)
         elif is_nd_tensor:
